@@ -46,6 +46,8 @@ pub enum MsgFault {
     ElemDrop { index: usize },
     /// the k-th array arrives empty (all fragments lost)
     ArrayClear { index: usize },
+    /// only the first `keep` elements of the k-th array arrive (tail fragments lost)
+    ArrayTruncate { index: usize, keep: usize },
     /// replace the k-th occurrence of a gate/op name
     NameReplace { index: usize, with: String },
     /// storage-level damage of Bristol text
@@ -124,6 +126,25 @@ fn walk_arrays(v: &mut serde_json::Value, f: &mut dyn FnMut(&mut Vec<serde_json:
     }
 }
 
+/// (first global element index, length, elements are objects) of every array in document order.
+pub fn array_layout(msg: &[u8]) -> Vec<(usize, usize, bool)> {
+    let Ok(mut v) = serde_json::from_slice::<serde_json::Value>(msg) else { return vec![] };
+    let mut out = vec![];
+    let mut k = 0;
+    walk_arrays(&mut v, &mut |a| {
+        out.push((k, a.len(), a.first().map(|e| e.is_object()).unwrap_or(false)));
+        k += a.len();
+    });
+    out
+}
+
+/// Index of the number token that is the value of `"field":`.
+fn field_token(msg: &[u8], field: &str) -> Option<usize> {
+    let pat = format!("\"{field}\":");
+    let pos = msg.windows(pat.len()).position(|w| w == pat.as_bytes())? + pat.len();
+    number_tokens(msg).iter().position(|&(s, _)| s >= pos)
+}
+
 /// Count (arrays, elements) for sweep enumeration.
 pub fn array_census(msg: &[u8]) -> (usize, usize) {
     let Ok(mut v) = serde_json::from_slice::<serde_json::Value>(msg) else { return (0, 0) };
@@ -181,6 +202,18 @@ pub fn apply_fault(msg: &mut Vec<u8>, f: &MsgFault) -> bool {
             let occ = name_occurrences(msg);
             if let Some(&(s, e)) = occ.get(*index) {
                 msg.splice(s..e, with.bytes());
+            }
+        }
+        MsgFault::ArrayTruncate { index, keep } => {
+            if let Ok(mut v) = serde_json::from_slice::<serde_json::Value>(msg) {
+                let mut k = 0usize;
+                walk_arrays(&mut v, &mut |a| {
+                    if k == *index {
+                        a.truncate(*keep);
+                    }
+                    k += 1;
+                });
+                *msg = serde_json::to_vec(&v).unwrap_or_default();
             }
         }
         MsgFault::ElemDup { index } | MsgFault::ElemDrop { index } | MsgFault::ArrayClear { index } => {
@@ -298,10 +331,19 @@ fn inspect_ssa(c: &Circuit, honest: bool, obs: &mut Obs, seedtag: u64, also_conv
         Ok(Err(e)) => {
             bump(&mut obs.counters, &format!("ssa_rejected_{}", format!("{e:?}").split('(').next().unwrap_or("")));
             if honest {
+                // the one shape with its own signature: a program none of whose parties supplies an input bit
+                let no_bits = bits == Some(0);
                 obs.findings.push(Finding {
                     class: "validate_rejects_honest".into(),
-                    signature: format!("validate_rejects_honest:ssa:{}", format!("{e:?}").split('(').next().unwrap_or("")),
-                    what: format!("validate() rejected a circuit produced by the compiler/converter: {e:?}"),
+                    signature: format!(
+                        "validate_rejects_honest:ssa:{}{}",
+                        format!("{e:?}").split('(').next().unwrap_or(""),
+                        if no_bits { ":program_without_any_input_bit" } else { "" }
+                    ),
+                    what: format!(
+                        "validate() rejected a circuit produced by the compiler/converter: {e:?}{}",
+                        if no_bits { " (the accepted program has parties but not a single input bit, e.g. `pub fn main(a: ()) -> bool { true }`; the constant gates Xor(0,0)/Not(0) then refer to themselves)" } else { "" }
+                    ),
                 });
             }
         }
@@ -437,14 +479,15 @@ fn inspect_reg(c: &rc::Circuit, honest: bool, obs: &mut Obs, seedtag: u64) {
     }
 }
 
-fn compile_both(prog: &ProgSpec, dedup: bool) -> Result<(Circuit, rc::Circuit), String> {
+fn compile_both(prog: &ProgSpec, dedup: bool) -> Result<(Circuit, Option<rc::Circuit>), String> {
     let consts = build_consts(&prog.consts, &[], 0);
     let ssa = match guarded(|| compile_src(&prog.src, "main", consts, Opts { register: false, dedup }, false)) {
         Ok(Ok(ct)) => ct.unwrap_ssa(),
         Ok(Err(e)) => return Err(format!("{e:?}").chars().take(80).collect()),
         Err(m) => return Err(m),
     };
-    let reg = guarded(|| rc::Circuit::from(&ssa)).map_err(|m| format!("conversion panicked: {m}"))?;
+    // a converter panic (C10's business) must not hide the SSA circuit from this check
+    let reg = guarded(|| rc::Circuit::from(&ssa)).ok();
     Ok((ssa, reg))
 }
 
@@ -458,12 +501,13 @@ fn value_hash(kind: u8, flat: &[u64]) -> u64 {
 }
 
 /// Sender side: the honest message for a channel.
-fn honest_message(ssa: &Circuit, reg: &rc::Circuit, ch: Channel) -> Result<Vec<u8>, String> {
+fn honest_message(ssa: &Circuit, reg: &Option<rc::Circuit>, ch: Channel) -> Result<Vec<u8>, String> {
+    let need_reg = || reg.as_ref().ok_or("SSA-to-register conversion panicked".to_string());
     match ch {
         Channel::JsonSsa => serde_json::to_vec(ssa).map_err(|e| e.to_string()),
-        Channel::JsonReg => serde_json::to_vec(reg).map_err(|e| e.to_string()),
+        Channel::JsonReg => serde_json::to_vec(need_reg()?).map_err(|e| e.to_string()),
         Channel::JsonTypeSsa => serde_json::to_vec(&CircuitType::Ssa(ssa.clone())).map_err(|e| e.to_string()),
-        Channel::JsonTypeReg => serde_json::to_vec(&CircuitType::Register(reg.clone())).map_err(|e| e.to_string()),
+        Channel::JsonTypeReg => serde_json::to_vec(&CircuitType::Register(need_reg()?.clone())).map_err(|e| e.to_string()),
         Channel::Bristol => {
             seams::install_plan(Plan::default());
             let p = seams::sim_path("msg.bristol.txt");
@@ -554,7 +598,10 @@ fn run_world_inner(w: &World) -> Obs {
         };
         obs.executions += 1;
         let oh = match w.channel {
-            Channel::JsonReg | Channel::JsonTypeReg => value_hash(1, &flatten(&CircuitType::Register(reg.clone()))),
+            Channel::JsonReg | Channel::JsonTypeReg => match &reg {
+                Some(reg) => value_hash(1, &flatten(&CircuitType::Register(reg.clone()))),
+                None => 0,
+            },
             _ => value_hash(0, &flatten(&CircuitType::Ssa(ssa.clone()))),
         };
         match honest_message(&ssa, &reg, w.channel) {
@@ -681,7 +728,13 @@ fn draw_faults(p: &mut Prng, msg: &[u8], ch: Channel) -> Vec<MsgFault> {
             }
             9 => MsgFault::ElemDup { index: p.usize_below(nelem.max(1)) },
             10 | 11 => MsgFault::ElemDrop { index: p.usize_below(nelem.max(1)) },
-            12 => MsgFault::ArrayClear { index: p.usize_below(narr.max(1)) },
+            12 => {
+                if p.chance(1, 2) {
+                    MsgFault::ArrayClear { index: p.usize_below(narr.max(1)) }
+                } else {
+                    MsgFault::ArrayTruncate { index: p.usize_below(narr.max(1)), keep: p.range(1, 4) as usize }
+                }
+            }
             _ => MsgFault::NameReplace { index: p.usize_below(nnames), with: p.pick(NAMES).to_string() },
         });
     }
@@ -705,6 +758,10 @@ fn tiny_subject(p: &mut Prng) -> ProgSpec {
         "pub fn main(a: bool, b: bool, c: bool) -> bool {\n    (a ^ b) & (b ^ c)\n}\n",
         "pub fn main(a: u8, b: bool) -> bool {\n    (a > 1u8) & b\n}\n",
         "pub fn main(a: u8, b: u8, c: u8) -> bool {\n    (a & b) == c\n}\n",
+        // degenerate but accepted programs: parties without any input bit
+        "pub fn main(a: (), b: bool) -> bool {\n    !b\n}\n",
+        "pub fn main(a: ()) -> bool {\n    true\n}\n",
+        "pub fn main(a: [u8; 0], b: ()) -> [u8; 0] {\n    a\n}\n",
     ];
     ProgSpec { name: "tiny".into(), src: p.pick(&srcs).to_string(), consts: vec![] }
 }
@@ -771,6 +828,8 @@ fn run_sweep(base: &World, acc: &mut Acc) {
             let o = run_world(&w);
             absorb(&o, &w, acc);
         };
+        // the fault-free channel first: compiler / converter output must be accepted
+        go(vec![], acc);
         // complete: every digit position x every other digit
         for (s, e) in number_tokens(&msg) {
             for off in s..e {
@@ -826,6 +885,52 @@ fn run_sweep(base: &World, acc: &mut Acc) {
                 go(vec![MsgFault::NameReplace { index, with: n.to_string() }], acc);
             }
         }
+        // single arrays truncated to their first elements
+        let layout = array_layout(&msg);
+        for (ai, &(_, len, _)) in layout.iter().enumerate() {
+            for keep in [1usize, 2, 3, len / 2, len.saturating_sub(1)] {
+                if keep < len {
+                    go(vec![MsgFault::ArrayTruncate { index: ai, keep }], acc);
+                }
+            }
+        }
+        // two arrays damaged together (emptied / truncated): the tail of several fields is lost
+        let top: Vec<usize> = layout.iter().enumerate().filter(|(_, &(_, len, _))| len > 0).map(|(i, _)| i).take(6).collect();
+        let lvl = |ai: usize| vec![MsgFault::ArrayClear { index: ai }, MsgFault::ArrayTruncate { index: ai, keep: 1 }, MsgFault::ArrayTruncate { index: ai, keep: 2 }];
+        for (x, &a1) in top.iter().enumerate() {
+            for &a2 in top.iter().skip(x + 1) {
+                for f1 in lvl(a1) {
+                    for f2 in lvl(a2) {
+                        // later array first: indices of earlier arrays stay valid
+                        go(vec![f2.clone(), f1.clone()], acc);
+                    }
+                }
+            }
+        }
+        // two instructions / gates lost together
+        for &(start, len, is_obj) in &layout {
+            if is_obj && len >= 2 {
+                let n = len.min(24);
+                for i in 0..n {
+                    for j in (i + 1)..n {
+                        go(vec![MsgFault::ElemDrop { index: start + j }, MsgFault::ElemDrop { index: start + i }], acc);
+                    }
+                }
+            }
+        }
+        // a size field and one number inside the instruction list change together
+        if let Some(sz) = field_token(&msg, "max_reg_count") {
+            let toks = number_tokens(&msg);
+            let inst_end = msg.windows(16).position(|w| w == b"\"max_reg_count\":").unwrap_or(0);
+            let inside: Vec<usize> = toks.iter().enumerate().filter(|(_, &(s, _))| s < inst_end).map(|(i, _)| i).skip_while(|&i| i < 2).take(40).collect();
+            for big in ["8", "16", "64", "255", "65536"] {
+                for &ti in &inside {
+                    for (delta, xor) in [(1i64, 0u64), (4, 0), (0, 8), (0, 32), (15, 0), (200, 0)] {
+                        go(vec![MsgFault::NumReplace { index: sz, with: big.to_string() }, MsgFault::NumShift { index: ti, delta, xor }], acc);
+                    }
+                }
+            }
+        }
         // every byte duplicated / deleted (length-changing transport damage)
         for off in 0..msg.len() {
             go(vec![MsgFault::ByteDup { off }], acc);
@@ -853,6 +958,8 @@ pub fn make_world(plan: &CasePlan, seed: u64, idx: u64) -> (World, &'static str,
                 let mut ap = p.fork();
                 let a = analyse(&src, &mut ap);
                 ProgSpec { name: "generated".into(), src, consts: a.consts }
+            } else if p.chance(1, 6) {
+                tiny_subject(&mut p)
             } else {
                 small_subject(&mut p)
             };
